@@ -157,18 +157,29 @@ Definition ex_ids : list rid :=
     mkId (mkGvk "admissionregistration.k8s.io" "v1" "ValidatingWebhookConfiguration") "" "hook";
     mkId (mkGvk "z.io" "v1beta1" "Bar") "default" "b" ].
 
-Example ex_ids_valid : valid_ids ex_ids /\ NoDup ex_ids /\ total_on_b gen_order_first gen_order_last ex_ids = true.
+Example ex_ids_valid : valid_ids ex_ids /\ NoDup ex_ids.
 Proof.
-  split; [|split].
+  split.
   - repeat constructor.
   - repeat constructor; simpl; intuition discriminate.
-  - vm_compute. reflexivity.
 Qed.
 
+(* the examples below use LITERAL tables, so that they witness the hypotheses of the generic theorems
+   without pinning the contents of the tables in /repo (those flow in through Gen_* obligations only) *)
+Definition ex_first : list string := ["Namespace"; "ConfigMap"; "Deployment"].
+Definition ex_last : list string := ["ValidatingWebhookConfiguration"].
+Definition ex_fs : list fieldspec := [mkFs "" "" "" "metadata/name" false].
+Definition ex_skip : list fieldspec :=
+  [mkFs "" "" "CustomResourceDefinition" "" false; mkFs "apiregistration.k8s.io" "" "APIService" "" false;
+   mkFs "" "" "Namespace" "" false].
+Definition ex_acc := accumulate cs_none ex_fs ex_fs ex_skip ex_skip.
+Definition ex_build := build cs_none ex_fs ex_fs ex_skip ex_skip.
+
 Example ex_sorted :
-  map id_name (sort_legacy gen_order_first gen_order_last ex_ids) = ["ns1"; "odd"; "cfg"; "cfg"; "web"; "b"; "hook"]
-  /\ sort_legacy gen_order_first gen_order_last (rev ex_ids) = sort_legacy gen_order_first gen_order_last ex_ids.
-Proof. split; vm_compute; reflexivity. Qed.
+  namespace_isolated ex_first ex_last = true /\
+  map id_name (sort_legacy ex_first ex_last ex_ids) = ["ns1"; "odd"; "cfg"; "cfg"; "web"; "b"; "hook"] /\
+  sort_legacy ex_first ex_last (rev ex_ids) = sort_legacy ex_first ex_last ex_ids.
+Proof. repeat split; vm_compute; reflexivity. Qed.
 
 Definition ex_docs : list rid :=
   [ mkId (mkGvk "apps" "v1" "Deployment") "" "d";
@@ -178,17 +189,23 @@ Definition ex_docs : list rid :=
 Definition ex_layers : list (string * string) := [("o-", "-O"); ("m-", "-M"); ("i-", "-I")].
 
 Example ex_nesting :
-  match accumulate_gen cs_none (chain ex_layers (File ex_docs)) with
+  single_hit ex_fs /\
+  match ex_acc (chain ex_layers (File ex_docs)) with
   | Ok out => map (fun r => id_name (r_cur r)) out
   | _ => []
   end = ["o-m-i-d-I-M-O"; "n"; "api"; "o-m-i-api-I-M-O"].
-Proof. vm_compute. reflexivity. Qed.
+Proof. split; [apply single_catchall_hit; reflexivity | vm_compute; reflexivity]. Qed.
 
 Example ex_wrap_permute :
+  let o := SortLegacy ex_first ex_last in
   let t := Dir [File ex_docs; Dir [File [mkId (mkGvk "" "v1" "ConfigMap") "" "c"]] "b-" ""] "p-" "" in
   let t' := Dir [Dir [File [mkId (mkGvk "" "v1" "ConfigMap") "" "c"]] "b-" ""; File ex_docs] "p-" "" in
-  is_ok (build_gen cs_none default_legacy t) = true /\
-  build_gen cs_none default_legacy (wrap t) = build_gen cs_none default_legacy t /\
-  build_gen cs_none default_legacy t' = build_gen cs_none default_legacy t /\
-  build_gen cs_none SortNone t' <> build_gen cs_none SortNone t.
+  is_ok (ex_build o t) = true /\
+  ex_build o (wrap t) = ex_build o t /\
+  ex_build o t' = ex_build o t /\
+  ex_build SortNone t' <> ex_build SortNone t.
 Proof. vm_compute. repeat split; try reflexivity. discriminate. Qed.
+
+(* the hypotheses of the theorems instantiated with the generated tables are satisfiable whatever the tables are *)
+Example ex_gen_nonvacuous : forall d, accumulate_gen cs_none (File [d]) = Ok [load d].
+Proof. intros. reflexivity. Qed.
